@@ -127,6 +127,12 @@ type Conn struct {
 	ChunkFn func(avail int) int
 	// CloseDelay makes the first Close() take this long to return.
 	CloseDelay time.Duration
+	// Coalesce (stream mode, no chunking configured): a Read returns bytes of
+	// several injected units at once, as a TCP socket does.
+	Coalesce bool
+	// DelayReadDeadline delays every SetReadDeadline call by this long before it
+	// takes effect (models the calling goroutine being descheduled right there).
+	DelayReadDeadline time.Duration
 
 	mu           sync.Mutex
 	changed      chan struct{}
@@ -189,6 +195,33 @@ func (c *Conn) Read(p []byte) (int, error) {
 		if len(c.rq) > 0 {
 			u := &c.rq[0]
 			n := len(u.data)
+			if c.Stream && c.Coalesce && c.MaxRead == 0 && c.ChunkFn == nil {
+				// like a real TCP socket: one Read returns as much of the queued
+				// stream as fits, across injection boundaries
+				total := 0
+				var doneIDs []int64
+				for len(c.rq) > 0 && total < len(p) {
+					u := &c.rq[0]
+					k := copy(p[total:], u.data)
+					u.data = u.data[k:]
+					total += k
+					if len(u.data) == 0 {
+						doneIDs = append(doneIDs, u.id)
+						c.consumed[u.id] = true
+						c.consumedN++
+						c.rq = c.rq[1:]
+					}
+				}
+				c.broadcastLocked()
+				cb := c.OnRead
+				c.mu.Unlock()
+				if cb != nil {
+					for _, id := range doneIDs {
+						cb(c, id, total)
+					}
+				}
+				return total, nil
+			}
 			if c.Stream {
 				lim := len(p)
 				if c.ChunkFn != nil {
@@ -339,6 +372,9 @@ func (c *Conn) SetDeadline(t time.Time) error {
 }
 
 func (c *Conn) SetReadDeadline(t time.Time) error {
+	if d := c.DelayReadDeadline; d > 0 {
+		time.Sleep(d)
+	}
 	c.recDeadline("r", t)
 	if c.IsClosed() {
 		return io.ErrClosedPipe
